@@ -207,13 +207,23 @@ def embedded_unitary(d, gates):
 
 
 # ------------------------------------------------------------------------------ workloads
-def wl_passive(ctx, pq, rng, shots):
+def wl_passive_bunched_distinguishable(ctx, pq, rng, shots):
+    """Focused cases: bunched inputs on >= 2 occupied modes with scalar overlap strictly between 0 and 1
+    (the sector weights C(n,k) x^k (1-x)^(n-k) k! of the partially distinguishable sampler), many shots."""
+    wl_passive(ctx, pq, rng, shots * 3, force="distinguishable-bunched")
+
+
+def wl_passive(ctx, pq, rng, shots, force=None):
     from vf.gen import programs as G
     from vf.gen import matrices as M
 
     d = int(rng.integers(2, 5))
     n = int(rng.integers(1, 5 if d < 4 else 4))
     occ = G.number_state(rng, d, n, bunched=rng.random() < 0.3)
+    if force == "distinguishable-bunched":
+        d = int(rng.integers(2, 4))
+        occ = [0] * d
+        occ[0], occ[1] = 2, int(rng.integers(1, 3))
     if sum(occ) == 0:
         occ[0] = 1
     gates = []
@@ -224,6 +234,8 @@ def wl_passive(ctx, pq, rng, shots):
         gates.append({"t": "Interferometer", "m": G.ordered_subset(rng, d, d), "p": {"matrix": M.enc(M.haar_unitary(rng, d))}})
     variant = str(rng.choice(["ideal", "ideal-subset", "uniform-loss", "loss", "lossy-interferometer", "postselect", "distinguishable", "dask"],
                              p=[0.1, 0.12, 0.12, 0.12, 0.1, 0.12, 0.24, 0.08]))
+    if force == "distinguishable-bunched":
+        variant = "distinguishable"
     ins = [{"t": "NumberState", "m": None, "p": {"occupation_numbers": occ}}] + gates
     cfg = {}
     modes = None
@@ -257,7 +269,7 @@ def wl_passive(ctx, pq, rng, shots):
             T, s = M.transmission_matrix(rng, d)
             ins.append({"t": "LossyInterferometer", "m": None, "p": {"matrix": M.enc(T)}})
         elif variant == "distinguishable":
-            ov = float(rng.choice([0.0, 0.3, 0.6, 0.7, 1.0]))
+            ov = float(rng.choice([0.0, 0.3, 0.6, 0.7, 1.0])) if force is None else float(rng.choice([0.3, 0.5, 0.6, 0.7]))
             if max(occ) < 2 and d >= 2 and rng.random() < 0.6:
                 # bunched inputs on >= 2 occupied modes: the sector weights of partial distinguishability matter
                 occ = [0] * d
@@ -565,7 +577,7 @@ def wl_fock_homodyne(ctx, pq, rng, shots):
                     j, m, dstat, pval, d2, p2, s2[:, j].mean(), mu), case)
 
 
-WORKLOADS = [("passive", wl_passive, 5), ("gaussian-discrete", wl_gaussian_discrete, 3), ("gaussian-dyne", wl_gaussian_dyne, 3), ("fock", wl_fock, 3),
+WORKLOADS = [("passive", wl_passive, 4), ("passive-bunched-distinguishable", wl_passive_bunched_distinguishable, 2), ("gaussian-discrete", wl_gaussian_discrete, 3), ("gaussian-dyne", wl_gaussian_dyne, 3), ("fock", wl_fock, 3),
              ("fock-homodyne", wl_fock_homodyne, 2)]
 
 
